@@ -652,7 +652,19 @@ fn actor_states_case(case: &mut Case) {
             states.push(s.clone());
         }
     }
-    let keys: Vec<RState> = states.iter().map(abstract_state).collect();
+    // The description of a state is what can influence its future or a property: a key whose option list is
+    // empty enables no choice and stands for "nothing pending under this key", exactly like an absent key
+    // (Out::remove_random and choose_random(key, vec![]) both withdraw the choice).
+    let keys: Vec<RState> = states
+        .iter()
+        .map(|s| {
+            let mut k = abstract_state(s);
+            for m in k.randoms.iter_mut() {
+                m.retain(|_, v| !v.is_empty());
+            }
+            k
+        })
+        .collect();
     let distinct_keys: BTreeSet<&RState> = keys.iter().collect();
     case.distinct(sys.structural_hash(), distinct_keys.len() >= 4);
     case.add("actor_states_collected", states.len() as u64);
@@ -670,6 +682,7 @@ fn actor_states_case(case: &mut Case) {
     for (s, k) in states.iter().zip(keys.iter()).step_by(3) {
         let rebuilt = concrete_state(&mut r, k);
         if abstract_state(&rebuilt) != *k {
+            // (a rebuilt state never holds an empty option list: the description has none)
             case.inconclusive("harness: rebuilt state does not have the intended description");
             return;
         }
